@@ -12,6 +12,13 @@ bool read_hex(const std::string &data, bool topo_check, bool bottom_up, OpenVolu
 bool write_poly(const OpenVolumeMesh::GeometricPolyhedralMeshV3d &m, std::string &out);
 bool write_tet(const OpenVolumeMesh::GeometricTetrahedralMeshV3d &m, std::string &out);
 bool write_hex(const OpenVolumeMesh::GeometricHexahedralMeshV3d &m, std::string &out);
+// file-name based interface (writeFile / readFile)
+bool write_poly_file(const OpenVolumeMesh::GeometricPolyhedralMeshV3d &m, const std::string &path);
+bool write_tet_file(const OpenVolumeMesh::GeometricTetrahedralMeshV3d &m, const std::string &path);
+bool write_hex_file(const OpenVolumeMesh::GeometricHexahedralMeshV3d &m, const std::string &path);
+bool read_poly_file(const std::string &path, bool topo_check, bool bottom_up, OpenVolumeMesh::GeometricPolyhedralMeshV3d &m);
+bool read_tet_file(const std::string &path, bool topo_check, bool bottom_up, OpenVolumeMesh::GeometricTetrahedralMeshV3d &m);
+bool read_hex_file(const std::string &path, bool topo_check, bool bottom_up, OpenVolumeMesh::GeometricHexahedralMeshV3d &m);
 bool is_tet_file(const std::string &path);
 bool is_hex_file(const std::string &path);
 }  // namespace ascii_shim
